@@ -125,6 +125,9 @@ func TestParseExprErrors(t *testing.T) {
 		{"a = ALL (b)", true},
 		{"a @> b", true},
 		{"a ? 'b'", true},
+		{"@ 1", true},
+		{"a = @1", true},
+		{"a = * 1", false},
 		{"count(*)", true},
 		{"count(DISTINCT a)", true},
 		{"date '2020-01-01'", true},
